@@ -62,6 +62,9 @@ def gen_cases(rng, tier):
             for j in range(len(opts)):
                 if i != j:
                     cases.append({'kind': 'args', 'loader': loader, 'first': i, 'second': j})
+    # (c2) sibling source files in one folder
+    for names in (['vasprun.300K.xml', 'vasprun.600K.xml'], ['run1.vasprun.xml', 'run2.vasprun.xml'], ['a.xml', 'a.b.xml'], ['vasprun.xml', 'vasprun.old.xml']):
+        cases.append({'kind': 'siblings', 'names': names})
     # (d) roundtrip
     for k in range(6 if tier == 'quick' else 60):
         cases.append({'kind': 'roundtrip', 'seed': rng.randrange(10**6)})
@@ -257,6 +260,22 @@ class _Impl:
                 'n_cache_files': len(n2), 'opts': [repr(a), repr(b)]}
 
     @staticmethod
+    def siblings(case, d):
+        """two source files side by side in one folder whose names differ only in an inner part (run.300K.xml / run.600K.xml):
+        each has its own default cache, and a cached load of one never returns the other"""
+        names = case['names']
+        files = []
+        for k, nm in enumerate(names):
+            pth = synthfiles.write_vasprun(d / nm, n_frames=4 + k, tebeg=300.0 * (k + 1))
+            files.append({'xml_file': pth})
+        refs = [_fresh('vasprun', f, {}) for f in files]
+        ok = True
+        for rnd in range(2):
+            for f, ref in zip(files, refs):
+                ok = ok and _sig(_load('vasprun', f, {})) == _sig(ref)
+        return {'siblings_ok': ok, 'refs_differ': _sig(refs[0]) != _sig(refs[1]), 'n_cache_files': len(_default_cache(d)), 'names': names}
+
+    @staticmethod
     def roundtrip(case, d):
         from gemdat.trajectory import Trajectory
         import synth
@@ -287,7 +306,7 @@ class _Impl:
 
 def oracle(case, out):
     kind = case['kind']
-    if 'error' in out and not any(k in out for k in ('res', 'outs', 'same_as_source', 'identical')):
+    if 'error' in out and not any(k in out for k in ('res', 'outs', 'same_as_source', 'identical', 'siblings_ok')):
         return [('c16/harness-error', f"{out.get('error')}: {out.get('msg')} {out.get('tb', '')[-500:]}")]
     fs = []
     if kind in ('prefix', 'garbage'):
@@ -313,6 +332,10 @@ def oracle(case, out):
         if not out['same_as_source']:
             fs.append(('cache/wrong-trajectory-for-arguments',
                        f'{case["loader"]}: after loading with {out["opts"][0]}, loading with {out["opts"][1]} returns the cached trajectory of the first call'))
+    elif kind == 'siblings':
+        if not out.get('siblings_ok') or out.get('n_cache_files', 2) < 2:
+            fs.append(('cache/wrong-trajectory-for-source-file', f'source files {out.get("names")} in one folder: a cached load returns another file\'s trajectory '
+                       f'({out.get("n_cache_files")} default cache file(s) for 2 sources)'))
     elif kind == 'roundtrip':
         if not out['identical']:
             fs.append(('cache/roundtrip', f'to_cache / from_cache does not return a trajectory identical to the one that was saved (storage mode {out.get("mode")}: 0 as built, 1 displacements, 2 positions)'))
